@@ -160,8 +160,16 @@ def step (o : Op V) (m : IMap V) : IMap V × Ret V :=
   | .keys => (m, .keys (m.map (·.1)))
   | .values => (m, .vals (m.map (·.2)))
 
-def run (ops : List (Op V)) : IMap V × List (Ret V) :=
-  ops.foldl (fun (acc : IMap V × List (Ret V)) o => let (m', r) := step o acc.1; (m', acc.2 ++ [r])) ([], [])
+/-- run a history from the state `m`, collecting the return values -/
+def runFrom (m : IMap V) : List (Op V) → IMap V × List (Ret V)
+  | [] => (m, [])
+  | o :: os =>
+    let (m', r) := step o m
+    let (m'', rs) := runFrom m' os
+    (m'', r :: rs)
+
+/-- a history applied to `Map::new()` -/
+def run (ops : List (Op V)) : IMap V × List (Ret V) := runFrom [] ops
 
 inductive Reachable : IMap V → Prop where
   | new : Reachable []
